@@ -329,11 +329,75 @@ func runCase(c Case) []ev.Violation {
 	return vs
 }
 
+// ---------------------------------------------------------------------------
+// gauges under concurrent first use: the in-flight count least-connections relies on must not lose
+// increments when several callers touch an endpoint for the first time together
+
+type GaugeCase struct {
+	G      int `json:"g"`
+	PerG   int `json:"per_g"`
+	ColdN  int `json:"cold_n"` // sequential increments on the second endpoint
+	Rounds int `json:"rounds"`
+}
+
+func genGauge(t *rapid.T) GaugeCase {
+	return GaugeCase{G: rapid.SampledFrom([]int{2, 4, 8, 16}).Draw(t, "g"), PerG: rapid.IntRange(1, 3).Draw(t, "perg"),
+		ColdN: rapid.IntRange(0, 6).Draw(t, "cold"), Rounds: rapid.IntRange(20, 60).Draw(t, "rounds")}
+}
+
+func runGauge(c GaugeCase) []ev.Violation {
+	rec.Eval(1)
+	rec.NT(fmt.Sprintf("gauge|%+v", c))
+	rec.Class("gauge-first-touch")
+	for round := 0; round < c.Rounds; round++ {
+		sel, col, err := newSelector("least-connections")
+		if err != nil {
+			return []ev.Violation{{Sig: "factory", Detail: err.Error()}}
+		}
+		eps := gen.Build([]gen.EP{{Status: "healthy"}, {Status: "healthy"}}, fmt.Sprintf("g%d", round))
+		var wg sync.WaitGroup
+		start := make(chan struct{})
+		for g := 0; g < c.G; g++ {
+			wg.Add(1)
+			go func() {
+				defer wg.Done()
+				<-start
+				for i := 0; i < c.PerG; i++ {
+					sel.IncrementConnections(eps[0])
+				}
+			}()
+		}
+		close(start)
+		wg.Wait()
+		for i := 0; i < c.ColdN; i++ {
+			sel.IncrementConnections(eps[1])
+		}
+		want := int64(c.G * c.PerG)
+		got := col.GetConnectionStats()[eps[0].URLString]
+		if got != want {
+			return []ev.Violation{{Sig: "gauge-lost-increments/concurrent-first-use", Detail: fmt.Sprintf("%d goroutines x %d increments on a fresh endpoint: gauge %d, want %d (round %d)", c.G, c.PerG, got, want, round)}}
+		}
+		e, err := sel.Select(context.Background(), eps)
+		if err != nil || e == nil {
+			return []ev.Violation{{Sig: "error-with-routable/least-connections", Detail: fmt.Sprint(err)}}
+		}
+		wantIdx := 0
+		if int64(c.ColdN) < want {
+			wantIdx = 1
+		}
+		if int64(c.ColdN) != want && e != eps[wantIdx] {
+			return []ev.Violation{{Sig: "least-conn-not-minimal/after-concurrent-first-use", Detail: fmt.Sprintf("in-flight %d vs %d, Select returned member %d", want, c.ColdN, 1-wantIdx)}}
+		}
+	}
+	return nil
+}
+
 func TestC06(t *testing.T) {
 	rec.SetRule("rapid-generated endpoint lists (n<=5, six statuses, priorities 0..3, connection vectors 0..20 plus inc/dec op lists) x strategy from balancer.Factory x goroutines {1,2,8,32}; non-trivial = priority: >=2 routable members in >=2 priority tiers; round-robin: >=2 routable and >=2 goroutines; least-connections: non-constant gauge vector among routable members; distinct by full case")
 	rec.Assume("priority weighted choice uses Olla's unseedable math/rand: coverage of every top-tier member is judged over 1200 selections (miss probability of a present member <= e^-29)")
-	if ev.Replay(t, rec, "balancers", runCase) {
+	if ev.Replay(t, rec, "balancers", runCase) || ev.Replay(t, rec, "gauges", runGauge) {
 		return
 	}
 	ev.Check(t, rec, "balancers", rec.Pick(6000, 120000), genCase, runCase)
+	ev.Check(t, rec, "gauges", rec.Pick(60, 1500), genGauge, runGauge)
 }
